@@ -4,6 +4,7 @@
 From Coq Require Import ZArith List Bool.
 From RV Require Import Base.Wire Base.Text Lang.StmtAst Lang.Transl.
 From RV Require Import Lang.PyAst Lang.PySem Lang.PyAstWire Lang.StmtSem Lang.StmtGuard Lang.StmtExec.
+From RV Require Import Lang.FnRet.
 Import ListNotations.
 Open Scope Z_scope.
 
@@ -132,8 +133,25 @@ Definition run_exec (pre mainopt exprs : list wv) (n fuel : Z) : wv :=
   | _, _ => wbad
   end.
 
+(* tag 2: labels of the return statements of a helper + has_void -> _merge_return_types (Lang.FnRet.merge_ret):
+   [0; ty] = that type, [1] = void, [2] = ValueError *)
+Fixpoint dec_tys (l : list wv) : option (list ty) :=
+  match l with
+  | [] => Some []
+  | WI z :: r => match dec_ty z, dec_tys r with Some t, Some ts => Some (t :: ts) | _, _ => None end
+  | _ => None
+  end.
+Definition run_merge (ls : list wv) (hv : wv) : wv :=
+  match dec_tys ls, un_bool hv with
+  | Some ts, Some b =>
+      match merge_ret ts b with
+      | RTy t => WL [WI 0; enc_ty t] | RVoid => WL [WI 1] | RReject => WL [WI 2] end
+  | _, _ => wbad
+  end.
+
 Definition run (v : wv) : wv :=
   match v with
+  | WL [WI 2; WL ls; hv] => run_merge ls hv
   | WL [WI 1; WL pre; WL mainopt; WL exprs; WI n; WI fuel] => run_exec pre mainopt exprs n fuel
   | WL [WL pre; WL mainopt] =>
       match dec_stmts pre,
